@@ -429,8 +429,16 @@ func c15Gen(seed int, illegal int) *c15Graph {
 		main.addImport("mq", "chkmq")
 		g.mainBody = append(g.mainBody, "raw:chkmq:mq.chk")
 	}
-	// an imported function started as a thread (last statement: main prints nothing after it)
+	// a library function whose only use anywhere is as the target of a spawn
 	if r.Intn(4) == 0 {
+		lib := g.mods[1]
+		lib.extra += fmt.Sprintf("pub fn onlyspawn%s() { println(\"%s.onlyspawn\"); }\n", lib.name, lib.name)
+		main.addImport(lib.name, "onlyspawn"+lib.name)
+		g.mainBody = append(g.mainBody, "rawspawn:onlyspawn"+lib.name+":"+lib.name+".onlyspawn")
+	}
+	// an imported function started as a thread (last statement: main prints nothing after it, and there is
+	// only ever one thread, so the order of the output is fixed)
+	if n := len(g.mainBody); r.Intn(4) == 0 && !(n > 0 && strings.HasPrefix(g.mainBody[n-1], "rawspawn:")) {
 		var fns []string
 		for _, from := range main.impOrder {
 			for _, it := range main.imports[from] {
@@ -716,6 +724,9 @@ func (g *c15Graph) sources() Program {
 				case "raw":
 					fn, _, _ := strings.Cut(arg, ":")
 					fmt.Fprintf(&b, "    %s();\n", fn)
+				case "rawspawn":
+					fn, _, _ := strings.Cut(arg, ":")
+					fmt.Fprintf(&b, "    spawn %s();\n", fn)
 				case "call-show":
 					fmt.Fprintf(&b, "    show%s();\n", arg)
 				case "assign-import":
@@ -821,7 +832,7 @@ func (g *c15Graph) expected() []string {
 				vals[mod+"."+gn] += "+"
 				out = append(out, fmt.Sprintf("closure %s.%s %s", mod, gn, vals[mod+"."+gn]))
 			}
-		case "raw":
+		case "raw", "rawspawn":
 			_, line, _ := strings.Cut(arg, ":")
 			out = append(out, line)
 		case "call-show":
@@ -877,7 +888,7 @@ func runC15(t *testing.T, spec RunSpec) *Verdict {
 		g.mods[0].addImport(lib.name, "cap")
 		g.mods[0].addImport(lib.name, "show"+lib.name)
 		at := len(g.mainBody)
-		if at > 0 && strings.HasPrefix(g.mainBody[at-1], "spawn:") {
+		for at > 0 && (strings.HasPrefix(g.mainBody[at-1], "spawn:") || strings.HasPrefix(g.mainBody[at-1], "rawspawn:")) {
 			at--
 		}
 		ins := []string{"call-show:" + lib.name, "assign-import:" + lib.name, "call-show:" + lib.name}
